@@ -167,7 +167,9 @@ def explore_job(job: dict) -> dict:
 def _fault_sig(fname: str, oplog: list) -> str:
     kind, _, pos = fname.partition(":")
     if kind == "fail":
-        ks = [int(x) for x in pos.split(",")]
+        # (an index beyond the log: the planned failure was never reached because an earlier failed write changed
+        # what the run did afterwards; it did not happen and is not part of the name)
+        ks = [int(x) for x in pos.split(",") if int(x) < len(oplog)]
         return "fail:" + "+".join(sorted({op_desc(oplog[k]) for k in ks}))
     k = int(pos)
     if kind == "kill-before":
